@@ -119,6 +119,9 @@ DEDICATED: list[str] = [
     "{% extends 'orphan' %}",
     "{% include 'orphan' %}",
     "{% extends 'nosuchparent' %}{% block a %}{{ x }}{% endblock %}",
+    "{% for i in a %}{{ forloop.nosuch }}{{ forloop['index'] }}{{ forloop[x] }}{% endfor %}{% tablerow i in a %}{{ tablerowloop.nosuch }}{{ tablerowloop[x] }}{% endtablerow %}",
+    "{% block b %}{{ block.nosuch }}{{ block[x] }}{{ block.super }}{% endblock %}|{{ a.0.k }}{{ a.1.0 }}{{ y.b.0.1 }}",
+    "{{ x | nosuchfilter: 1 }}{{ '<script>a</script>b<style>c</style>' | strip_html }}",
     # inheritance state within one render: an inheriting partial, then the same block names without inheritance
     "{% include 'leaf' %}|{% include 'base' %}|{% render 'leaf' %}|{% render 'base' %}",
     "{% include 'mid' %}{% block a %}page-a{{ x }}{% endblock %}{% block b %}page-b{% endblock %}",
@@ -255,6 +258,11 @@ class C01(Check):
 
     def run_tag(self, idx: int, tier: str, res: Result) -> None:
         src = C02.TAG_TEMPLATES[idx]
+        if "'now'" in src or "'today'" in src:
+            # prints the current time: two renders may straddle a clock tick (the statement compares outputs,
+            # and the clock is not an input); C02 keeps the template, it only looks at error classes
+            res.count("tag_templates_excluded:current-time")
+            return
         pool = U.pool(tier)
         hs = C02.holes(src)
         for envdesc in ({"kind": "A", "mode": "strict"}, {"kind": "A", "mode": "lax"}, {"kind": "B", "mode": "strict"}):
